@@ -63,7 +63,10 @@ func VH_C01_commit(k int, maxView int) {
 	}
 	c := nondetInt("committed")
 	t := nondetInt("target")
-	vassume(c >= -1 && c < k && t >= 0 && t < k && onChain(t, c))
+	// the target lies on one chain with the committed block: above it (the normal case), equal
+	// to it, or below it (a commit rule answering from a proposal that carries a stale QC)
+	vassume(c >= -1 && c < k && t >= 0 && t < k && (onChain(t, c) || onChain(c, t)))
+	stale := !onChain(t, c) || t == c
 	states.VSetCommitted(blk(c))
 	var commits []*hotstuff.Block
 	var order []int // 0 commit event, 1 execute event (interleaving)
@@ -74,6 +77,13 @@ func VH_C01_commit(k int, maxView int) {
 	cm := NewCommitter(el, logging.VNop(), w.Chain, states, vhRuler{blocks[t]})
 	vassert(cm.TryCommit(blocks[t]) == nil, "commit-succeeds")
 	for el.Tick(context.Background()) {
+	}
+	if stale {
+		vcover("stale-target")
+		vassert(len(commits) == 0 && len(execs) == 0, "stale-target-commits-nothing")
+		vassert(states.CommittedBlock() == blk(c), "stale-target-leaves-the-committed-block")
+		vassert(states.CommittedBlock().View() >= blk(c).View(), "committed-view-never-decreases")
+		return
 	}
 	// expected: the chain strictly after c up to t, ancestor first
 	var want []int
